@@ -70,6 +70,13 @@ CLAIMED["C05"] = dict(
    technique="contract-based deductive verification: language postconditions, code-derived regular languages, inclusion lemmas, loop invariants over Split parts; lemma witnesses replayed on the real sanitisers",
    design="5.C05")
 
+CLAIMED["C07"] = dict(
+   level="proof",
+   text="(1) SourceMap.Add (parser/v2): quantified table contract proved for all expressions, ranges and previous table contents: for every line j of the expression and every rune start k of that line (and the position just past its end) the forward table holds (tgt.From.Index + off(j) + k, tgt.From.Line + j, tgtCol0(j) + k) at (src line + j, srcCol0(j) + k) and the reverse table holds the mirror entry - same byte offset on both sides, consecutive positions to consecutive positions, reverse inverts forward - plus the frame: every entry outside the rectangle of this expression is kept (two nested loops, quantified invariants, nested map model). Lookups return exactly the table entries; AddSymbolRange records the pair in both directions and keeps every other symbol. (2) RangeWriter (generator): write/Write/WriteIndent/closeLiteral/writeErrorHandler keep the invariant rwOK (Current.Index = bytes written, Current.Line = line feeds written, Current.Col = bytes after the last line feed), only append, and return a range whose From is the line/column/offset of the first byte of the text just written and whose To is the position after it; for well-formed UTF-8 exactly the bytes of the argument are appended. (3) Generator: a default contract (methods block) is proved for every method of *generator (61 functions): rwOK and the table invariants are preserved and output is append-only; at each of the 26 g.sourceMap.Add(expr, r) call sites the call-site clause of Add is proved: the bytes of the output at r.From.Index are expr.Value, r.From is the line/column of that offset, and expr has a source range. The whole-file statement (every mapped source byte = the target byte) follows from (1)-(3) and the parser's own invariant that Expression.Range locates Expression.Value in the source (assumed, see note). Two genuine defects found by failing obligations, replayed on the real generator and repaired (symbol ranges lost for declarations sharing a line; a synthesised class expression filed at source 0:0).",
+   note="govc + solvers; assumed: parser invariant 'Expression.Range.From locates Expression.Value in the templ source' and 'parser expressions have a non-empty range' (type invariant, assumed for values entering verified code); expressions are well-formed UTF-8 (Go source); line/column/index counters do not wrap (files far below 2 GiB); spec functions nlCount/lineStart: step facts per rune, distribution over concatenation and prefix stability are axioms (listed); strings.Split offsets model; inner maps are not aliased; utf8.EncodeRune/DecodeRune models; all facts on the generator side are stated for runs in which no writer failed (ghost failedDuring); coverage ('every Go expression is mapped') is only checked by the bounded replay oracle, not by a contract; no panic-freedom sweep on generator methods",
+   technique="contract-based deductive verification: quantified loop invariants over a nested map model, ghost writer output, default method contracts, call-site clauses evaluated in the caller, axiomatised spec functions; weaker-query portfolio (string abstraction, local hypotheses) for discharge; replay oracle = real parser+generator on templates, tables compared byte by byte",
+   design="5.C07")
+
 NA = {
  "C02": "compiler correctness: needs a formal semantics of templ and of the emitted Go subset; no per-function contract can state 'denotes' without restating the generator (locally expressible parts are claimed under C01/C03/C04/C10/C16/C07)",
  "C08": "whole-formatter semantic preservation needs the same two semantics plus go/format; not expressible as function contracts",
